@@ -7,6 +7,7 @@ use crate::refjson::{self, Mode, Style};
 use crate::tree::{hex, lossy, Tree};
 
 pub fn judge(ctx: &mut Ctx, text: &[u8], class: &str) {
+    ctx.evals += 1;
     ctx.count(&format!("class.{}", class));
     let exp = refjson::parse(text, Mode::Lenient);
     let info = || format!("class={} text={:?} bytes={}", class, lossy(text), hex(text));
